@@ -61,6 +61,10 @@ Ltac inv_step :=
   | |- inv _ (fatal _) => apply HQ1; reflexivity
   | |- inv _ (Stop (Exit _)) => apply HQ1; reflexivity
   | |- inv _ (guard _ _) => apply inv_guard; apply HQ1; reflexivity
+  | |- inv _ (bind (nth_or_panic _ 0 (_ :: _)) _) => cbn [bind nth_or_panic nth_error]
+  | |- inv _ (bind (deref _ (Some _)) _) => cbn [bind deref]
+  | |- inv _ (nth_or_panic _ 0 (_ :: _)) => exact I
+  | |- inv _ (deref _ (Some _)) => exact I
   | |- inv _ (bind _ _) => apply inv_bind; [|intros ? ?]
   | |- inv _ (if ?b then _ else _) => destruct b eqn:?
   | |- inv _ (match ?x with _ => _ end) => destruct x eqn:?
@@ -68,16 +72,49 @@ Ltac inv_step :=
   end.
 Ltac inv_auto := repeat inv_step.
 
-Lemma new_top_field_g fl fuel tops f :
-  (forall t, inv Q (expand LNewEmbed fuel tops t)) -> inv Q (new_top_field fl fuel tops f).
+Lemma nth_or_panic_ok {A} s n (l : list A) : n < List.length l -> exists x, nth_or_panic s n l = Ok x.
+Proof.
+  intros H. unfold nth_or_panic. destruct (nth_error l n) eqn:E; [eauto|].
+  apply nth_error_None in E. lia.
+Qed.
+
+(* the guarded dereferences and index expressions never fail *)
+Lemma first_name_g p : inv Q (first_name p).
+Proof. unfold first_name. destruct (pa_names p); exact I. Qed.
+
+Lemma walk_body_g b : inv Q (walk_body b).
+Proof. destruct b; exact I. Qed.
+
+Lemma test_file_m_g fl f : inv Q (test_file_m fl f).
+Proof.
+  unfold test_file_m, file_pos. destruct (fl_file fl =? ""); [exact I|].
+  destruct (f_pkg f =? ""); exact I.
+Qed.
+
+Lemma rest_item_m_g it : inv Q (rest_item_m it).
+Proof. destruct it as [[]|]; exact I. Qed.
+
+Lemma rest_items_m_g : forall l, inv Q (rest_items_m l).
+Proof.
+  induction l as [|it r IH]; cbn [rest_items_m]; [exact I|].
+  apply inv_bind; [apply rest_item_m_g|intros b _]. destruct b; [exact I|apply IH].
+Qed.
+
+Lemma rest_test_m_g T t : inv Q (rest_test_m T t).
+Proof.
+  unfold rest_test_m. destruct (negb _); [exact I|]. destruct (ts_body t); try exact I. apply rest_items_m_g.
+Qed.
+
+Lemma new_top_field_g fl fuel fo tops f :
+  (forall t, inv Q (expand LNewEmbed fuel fo tops t)) -> inv Q (new_top_field fl fuel fo tops f).
 Proof.
   intros He. unfold new_top_field. destruct (is_embedded f); [apply He|].
   apply inv_each. intros n _. inv_auto.
 Qed.
 
-Lemma new_walk_g fl fuel tops T :
-  (forall t, inv Q (expand LNewEmbed fuel tops t)) ->
-  forall l found, inv Q (new_walk fl fuel tops T l found).
+Lemma new_walk_g fl fuel fo tops T :
+  (forall t, inv Q (expand LNewEmbed fuel fo tops t)) ->
+  forall l found, inv Q (new_walk fl fuel fo tops T l found).
 Proof.
   intros He. induction l as [|[t b] r IH]; intros found; cbn [new_walk]; [exact I|].
   destruct (negb (T =? "") && negb (ts_name t =? T)); [apply IH|].
@@ -87,9 +124,9 @@ Proof.
   apply inv_each. intros f _. now apply new_top_field_g.
 Qed.
 
-Lemma new_make_g fl ld T :
-  (forall t, inv Q (expand LNewEmbed (S (List.length (top_tspecs (ld_files ld)))) (top_tspecs (ld_files ld)) t)) ->
-  inv Q (new_make fl ld T).
+Lemma new_make_g fo fl ld T :
+  (forall t, inv Q (expand LNewEmbed (expand_fuel fo (top_tspecs (ld_files ld))) fo (top_tspecs (ld_files ld)) t)) ->
+  inv Q (new_make fo fl ld T).
 Proof. intros He. unfold new_make. cbv zeta. apply inv_bind; [now apply new_walk_g|intros]. inv_auto. Qed.
 
 Lemma enum_vspecs_g tops T : forall l typ n, inv Q (enum_vspecs tops T typ l n).
@@ -129,9 +166,22 @@ Qed.
 Lemma rest_method_g baddir fs f doc ps rs : inv Q (rest_method baddir fs f doc ps rs).
 Proof.
   unfold rest_method. destruct doc; try exact I. cbv zeta.
+  set (vals := flat_map _ rs).
   apply inv_bind; [inv_auto|intros].
   apply inv_bind; [apply rest_params_g|intros].
-  inv_auto.
+  apply inv_bind; [inv_auto|intros].
+  apply inv_bind; [inv_auto|intros u2 H2].
+  apply inv_bind; [inv_auto|intros u3 H3].
+  (* from here on 2 <= n <= 3: the three index expressions are in range *)
+  assert (Hn : 2 <= List.length vals).
+  { destruct (Nat.leb 2 (List.length vals)) eqn:E; [now apply Nat.leb_le in E|discriminate]. }
+  destruct (nth_or_panic_ok PRestResultIndex (List.length vals - 2) vals ltac:(lia)) as (v2 & ->).
+  cbn [bind]. apply inv_bind; [inv_auto|intros].
+  destruct (nth_or_panic_ok PRestResultIndex (List.length vals - 1) vals ltac:(lia)) as (v1 & ->).
+  cbn [bind]. apply inv_bind; [inv_auto|intros].
+  destruct (Nat.eqb (List.length vals) 3); [|exact I].
+  destruct (nth_or_panic_ok PRestResultIndex 0 vals ltac:(lia)) as (v0 & ->).
+  cbn [bind]. inv_auto.
 Qed.
 
 Lemma rest_iface_g baddir fs f items : inv Q (rest_iface baddir fs f items).
@@ -142,7 +192,8 @@ Qed.
 Lemma rest_walk_g baddir fs T f : forall l found, inv Q (rest_walk baddir fs T f l found).
 Proof.
   induction l as [|[t b] r IH]; intros found; cbn [rest_walk]; [exact I|].
-  destruct (rest_test T t); [|apply IH].
+  apply inv_bind; [apply rest_test_m_g|intros hit _].
+  destruct hit; [|apply IH].
   destruct (ts_body t); try apply IH.
   apply inv_bind; [apply rest_iface_g|intros; apply IH].
 Qed.
@@ -156,9 +207,9 @@ Qed.
 Lemma rest_make_g baddir ld T : inv Q (rest_make baddir ld T).
 Proof. unfold rest_make. apply inv_bind; [apply rest_files_g|intros]. inv_auto. Qed.
 
-Lemma map_walk_g fuel tops T :
-  (forall t, inv Q (expand LMapEmbed fuel tops t)) ->
-  forall l found, inv Q (map_walk fuel tops T l found).
+Lemma map_walk_g fuel fo tops T :
+  (forall t, inv Q (expand LMapEmbed fuel fo tops t)) ->
+  forall l found, inv Q (map_walk fuel fo tops T l found).
 Proof.
   intros He. induction l as [|[t b] r IH]; intros found; cbn [map_walk]; [exact I|].
   destruct (map_test T t); [|apply IH].
@@ -167,18 +218,70 @@ Proof.
   apply inv_each. intros f _. destruct (is_embedded f); [apply He|exact I].
 Qed.
 
-Lemma map_manual_g key T D : forall l w r, inv Q (map_manual key T D l w r).
+Lemma map_ctors_g files T : inv Q (map_ctors files T).
 Proof.
-  induction l as [|[f fd] rest IH]; intros w r; cbn [map_manual]; cbv zeta; [exact I|].
-  repeat (first [apply IH | inv_step]).
+  unfold map_ctors. apply inv_each. intros [g f] _.
+  destruct (fn_recv f); [exact I|].
+  destruct (negb (fn_name f =? "New" ++ T)); [exact I|].
+  destruct (fn_results f) as [rs|]; [|exact I].
+  destruct rs as [|r [|r2 rs]]; cbn [List.length Nat.eqb negb]; try exact I.
+  cbn [bind nth_or_panic nth_error].
+  destruct (pa_type r); try exact I. destruct t; try exact I.
+  destruct (negb (n =? T)); [exact I|].
+  destruct (fn_params f) as [|p ps]; [exact I|].
+  apply inv_bind; [apply walk_body_g|intros].
+  apply inv_each. intros q _. apply inv_bind; [apply first_name_g|intros; exact I].
+Qed.
+
+Lemma map_accessors_g files T : inv Q (map_accessors files T).
+Proof.
+  unfold map_accessors. cbv zeta. destruct (unexported_fields files T); [exact I|].
+  apply inv_each. intros [g f] _.
+  destruct (fn_recv f) as [[|r rl]|]; try exact I.
+  destruct (negb (mem (fn_name f) _)); [exact I|].
+  cbn [bind nth_or_panic nth_error].
+  destruct (match pa_type r with TStar x => x | x => x end); try exact I.
+  destruct (negb (n =? T)); [exact I|].
+  destruct (String.prefix "Set" (fn_name f)).
+  - destruct (negb (no_results f)); [exact I|].
+    destruct (fn_params f) as [|p [|p2 ps]]; cbn [List.length Nat.eqb negb]; try exact I.
+  - destruct (fn_params f); [|exact I].
+    destruct (fn_results f) as [[|x [|x2 xs]]|]; cbn [List.length Nat.eqb negb]; exact I.
+Qed.
+
+Lemma manual_step_g key T D f fd st : inv Q (manual_step key T D f fd st).
+Proof.
+  unfold manual_step. destruct st as [w r]. cbv zeta.
+  destruct (fn_recv fd) as [[|recv rl]|]; try exact I.
+  match goal with |- inv _ (if ?b then _ else _) => destruct b end; [exact I|].
+  cbn [bind nth_or_panic nth_error].
+  destruct (pa_type recv); cbv iota beta; try exact I;
+    try (match goal with |- inv _ (if ?b then _ else _) => destruct b; [apply HQ1; reflexivity|exact I] end).
+  match goal with |- inv _ (if ?b then _ else _) => destruct b end; [exact I|].
+  destruct (fn_params fd) as [|p [|p2 ps]]; cbn [List.length Nat.eqb negb]; try exact I.
+  match goal with |- inv _ (if ?b then _ else _) => destruct b end; [exact I|].
+  cbn [bind nth_or_panic nth_error].
+  match goal with |- inv _ (if ?b then _ else _) => destruct b end.
+  - match goal with |- inv _ (if ?b then _ else _) => destruct b end; [apply HQ1; reflexivity|].
+    destruct w; [apply HQ1; reflexivity|].
+    apply inv_bind; [apply first_name_g|intros]. apply inv_bind; [apply walk_body_g|intros; exact I].
+  - match goal with |- inv _ (if ?b then _ else _) => destruct b end; [apply HQ1; reflexivity|].
+    destruct r; [apply HQ1; reflexivity|].
+    apply inv_bind; [apply first_name_g|intros]. apply inv_bind; [apply walk_body_g|intros; exact I].
+Qed.
+
+Lemma map_manual_g key T D : forall l st, inv Q (map_manual key T D l st).
+Proof.
+  induction l as [|[f fd] rest IH]; intros st; cbn [map_manual]; [exact I|].
+  apply inv_bind; [apply manual_step_g|intros; apply IH].
 Qed.
 
 (* what map_make needs to know about the only functions that can crash: the two expansions *)
-Definition map_parts_ok (ld : loaded) : Prop :=
-  (forall t, inv Q (expand LMapEmbed (S (List.length (top_tspecs (ld_files ld)))) (top_tspecs (ld_files ld)) t)) /\
-  (forall t, inv Q (expand LMapEmbed (S (List.length (top_tspecs (ld_dest ld)))) (top_tspecs (ld_dest ld)) t)).
+Definition map_parts_ok (fo : foreign) (ld : loaded) : Prop :=
+  (forall t, inv Q (expand LMapEmbed (expand_fuel fo (top_tspecs (ld_files ld))) fo (top_tspecs (ld_files ld)) t)) /\
+  (forall t, inv Q (expand LMapEmbed (expand_fuel fo (top_tspecs (ld_dest ld))) fo (top_tspecs (ld_dest ld)) t)).
 
-Lemma map_make_g fl ld T : map_parts_ok ld -> inv Q (map_make fl ld T).
+Lemma map_make_g fo fl ld T : map_parts_ok fo ld -> inv Q (map_make fo fl ld T).
 Proof.
   intros (He1 & He2).
   unfold map_make, map_parse_fields. cbv zeta.
@@ -186,20 +289,25 @@ Proof.
   apply inv_bind; [inv_auto|intros].
   apply inv_bind; [now apply map_walk_g|intros].
   match goal with |- inv _ (if ?b then _ else _) => destruct b end; [inv_auto|].
-  apply inv_bind; [apply map_manual_g|intros; exact I].
+  repeat (apply inv_bind;
+          [ first [ apply map_manual_g
+                  | match goal with |- inv _ (if ?b then _ else _) => destruct b end;
+                    first [apply map_ctors_g | apply map_accessors_g | exact I] ]
+          | intros ]).
+  exact I.
 Qed.
 
-Definition parts_ok (ld : loaded) : Prop :=
-  (forall t, inv Q (expand LNewEmbed (S (List.length (top_tspecs (ld_files ld)))) (top_tspecs (ld_files ld)) t)) /\
-  map_parts_ok ld.
+Definition parts_ok (fo : foreign) (ld : loaded) : Prop :=
+  (forall t, inv Q (expand LNewEmbed (expand_fuel fo (top_tspecs (ld_files ld))) fo (top_tspecs (ld_files ld)) t)) /\
+  map_parts_ok fo ld.
 
-Lemma make_data_g i fl ld T : parts_ok ld -> inv Q (make_data i fl ld T).
+Lemma make_data_g i fl ld T : parts_ok (i_foreign i) ld -> inv Q (make_data i fl ld T).
 Proof.
   intros (Hn & Hm). unfold make_data. destruct (fl_sub fl);
     [now apply new_make_g|apply enum_make_g|apply rest_make_g|now apply map_make_g].
 Qed.
 
-Lemma gen_loop_g i fl ld fmap : parts_ok ld ->
+Lemma gen_loop_g i fl ld fmap : parts_ok (i_foreign i) ld ->
   forall types sep merged, inv Q (gen_loop i fl ld fmap types sep merged).
 Proof.
   intros Hp. induction types as [|T r IH]; intros sep merged; cbn [gen_loop]; [exact I|].
@@ -209,12 +317,16 @@ Qed.
 
 Lemma confirm_types_g fl ld : inv Q (confirm_types fl ld).
 Proof.
-  unfold confirm_types. destruct (fl_specified fl); [|exact I].
-  apply inv_bind; [|intros; exact I].
-  apply inv_each. intros T _. inv_auto.
+  unfold confirm_types. destruct (fl_specified fl).
+  - apply inv_bind; [|intros; exact I].
+    apply inv_each. intros T _. inv_auto.
+  - apply inv_bind; [|intros; exact I].
+    apply inv_each. intros f _. apply inv_bind; [apply test_file_m_g|intros ok _].
+    destruct ok; [|exact I]. destruct (fl_sub fl); try exact I.
+    apply inv_each. intros x _. apply inv_bind; [apply rest_test_m_g|intros; exact I].
 Qed.
 
-Lemma generate_g i fl ld : parts_ok ld -> inv Q (generate i fl ld).
+Lemma generate_g i fl ld : parts_ok (i_foreign i) ld -> inv Q (generate i fl ld).
 Proof.
   intros Hp. unfold generate. apply inv_bind; [apply confirm_types_g|intros [types fmap] _].
   apply inv_bind; [now apply gen_loop_g|intros [sep merged] _].
@@ -235,13 +347,13 @@ End Generic.
 Lemma fatal_or_crash_1 : forall d, exit_code d = 1 -> fatal_or_crash (Exit d).
 Proof. intros d H. exact H. Qed.
 
-Lemma expand_q site : forall fuel tops t, inv fatal_or_crash (expand site fuel tops t).
+Lemma expand_q site fo : forall fuel tops t, inv fatal_or_crash (expand site fuel fo tops t).
 Proof.
-  induction fuel as [|k IH]; intros tops t; cbn [expand]; destruct (embedded_struct tops t); cbn; auto.
+  induction fuel as [|k IH]; intros tops t; cbn [expand]; destruct (embedded_struct fo tops t) as [[fs tops']|]; cbn; auto.
   apply inv_each. intros f _. destruct (is_embedded f); [apply IH|exact I].
 Qed.
 
-Lemma parts_ok_q ld : parts_ok fatal_or_crash ld.
+Lemma parts_ok_q fo ld : parts_ok fatal_or_crash fo ld.
 Proof. repeat split; intros; apply expand_q. Qed.
 
 (* ------------------------------ pass 2: no crash on well-formed packages *)
@@ -249,34 +361,83 @@ Proof. repeat split; intros; apply expand_q. Qed.
 Lemma no_crash_1 : forall d, exit_code d = 1 -> no_crash (Exit d).
 Proof. intros; exact I. Qed.
 
-(* t' is an embedded field of the struct t expands to, and expands itself *)
-Definition child (tops : list tspec) (t t' : texpr) : Prop :=
-  exists fs f, embedded_struct tops t = Some fs /\ In f fs /\ is_embedded f = true /\
-               t' = fd_type f /\ embedded_struct tops t' <> None.
-
-(* the embedding relation of the package is well founded, witnessed by a rank
-   bounded by the number of package-level type specs *)
-Definition embedding_wf (tops : list tspec) : Prop :=
-  exists rank : texpr -> nat,
-    (forall t t', child tops t t' -> rank t' < rank t) /\ (forall t, rank t <= List.length tops).
-
-Lemma expand_rank site tops rank :
-  (forall t t', child tops t t' -> rank t' < rank t) ->
-  forall fuel t, rank t < fuel -> inv no_crash (expand site fuel tops t).
+Lemma assoc_in {A} k (l : list (string * A)) v : assoc k l = Some v -> In (k, v) l.
 Proof.
-  intros Hr. induction fuel as [|k IH]; intros t Hlt; [lia|].
-  cbn [expand]. destruct (embedded_struct tops t) as [fs|] eqn:He; [|exact I].
+  induction l as [|[k' v'] r IH]; cbn; [discriminate|].
+  destruct (k' =? k) eqn:E; [|intros; right; auto].
+  intros H. injection H as <-. apply String.eqb_eq in E. subst. now left.
+Qed.
+
+(* the scopes an expansion started in tops0 can be in: tops0 itself and the imported packages *)
+Definition scope_ok (fo : foreign) (tops0 tops : list tspec) : Prop :=
+  tops = tops0 \/ exists q, In (q, tops) fo.
+
+(* t' (written in scope tops') is an embedded field of the struct that t (written in scope tops)
+   expands to, and expands itself *)
+Definition child (fo : foreign) (tops : list tspec) (t : texpr) (tops' : list tspec) (t' : texpr) : Prop :=
+  exists fs f, embedded_struct fo tops t = Some (fs, tops') /\ In f fs /\ is_embedded f = true /\
+               t' = fd_type f /\ embedded_struct fo tops' t' <> None.
+
+(* the embedding relation reachable from the package tops0 (through the imported packages fo) is
+   well founded, witnessed by a rank that is small enough at the root *)
+Definition embedding_wf (fo : foreign) (tops0 : list tspec) : Prop :=
+  exists rank : list tspec -> texpr -> nat,
+    (forall tops t tops' t', scope_ok fo tops0 tops -> child fo tops t tops' t' -> rank tops' t' < rank tops t) /\
+    (forall t, rank tops0 t < expand_fuel fo tops0).
+
+Lemma struct_in_inv scope ptr n fs sc : struct_in scope ptr n = Some (fs, sc) ->
+  sc = scope /\ exists p, pos n scope = Some p /\ under_struct (S (List.length scope)) scope n = Some fs.
+Proof.
+  unfold struct_in. destruct (find_tspec n scope) as [s|] eqn:Hf; [|discriminate].
+  destruct (negb ptr && ts_alias s); [discriminate|].
+  destruct (under_struct (S (List.length scope)) scope n) as [fs'|] eqn:Hu; [|discriminate].
+  intros H. injection H as <- <-. split; [reflexivity|].
+  clear Hu. revert s Hf. induction scope as [|x r IH]; cbn; intros s Hf; [discriminate|].
+  destruct (ts_name x =? n); [eauto|]. destruct (IH s Hf) as (p & Hp & _). exists (S p). rewrite Hp. auto.
+Qed.
+
+Lemma tsel_tname t x : tsel t = Some x -> tname t = None.
+Proof. unfold tsel, tname. destruct (local_name (core t)); [discriminate|reflexivity]. Qed.
+
+Lemma embedded_struct_inv fo tops t fs sc : embedded_struct fo tops t = Some (fs, sc) ->
+  (exists n p, tname t = Some n /\ sc = tops /\ pos n tops = Some p /\
+               under_struct (S (List.length tops)) tops n = Some fs) \/
+  (exists q n ft p, tsel t = Some (q, n) /\ assoc q fo = Some ft /\ sc = ft /\ pos n ft = Some p /\
+                    under_struct (S (List.length ft)) ft n = Some fs).
+Proof.
+  unfold embedded_struct, tsel, tname. destruct (local_name (core t)) as [n|].
+  - intros H. apply struct_in_inv in H as (-> & p & Hp & Hu). left. exists n, p. auto.
+  - destruct (sel_name (core t)) as [[q n]|]; [|discriminate].
+    destruct (assoc q fo) as [ft|] eqn:Ha; [|discriminate].
+    intros H. apply struct_in_inv in H as (-> & p & Hp & Hu). right. exists q, n, ft, p. auto.
+Qed.
+
+Lemma embedded_scope fo tops0 tops t fs tops' :
+  scope_ok fo tops0 tops -> embedded_struct fo tops t = Some (fs, tops') -> scope_ok fo tops0 tops'.
+Proof.
+  intros Hs He. destruct (embedded_struct_inv _ _ _ _ _ He) as [(n & p & _ & -> & _)|(q & n & ft & p & _ & Ha & -> & _)].
+  - exact Hs.
+  - right. exists q. now apply assoc_in.
+Qed.
+
+Lemma expand_rank site fo tops0 rank :
+  (forall tops t tops' t', scope_ok fo tops0 tops -> child fo tops t tops' t' -> rank tops' t' < rank tops t) ->
+  forall fuel tops t, scope_ok fo tops0 tops -> rank tops t < fuel -> inv no_crash (expand site fuel fo tops t).
+Proof.
+  intros Hr. induction fuel as [|k IH]; intros tops t Hs Hlt; [lia|].
+  cbn [expand]. destruct (embedded_struct fo tops t) as [[fs tops']|] eqn:He; [|exact I].
   apply inv_each. intros f Hin. destruct (is_embedded f) eqn:Hemb; [|exact I].
-  destruct (embedded_struct tops (fd_type f)) as [fs'|] eqn:He'.
-  - apply IH. assert (rank (fd_type f) < rank t); [|lia].
-    apply Hr. exists fs, f. repeat split; auto. congruence.
+  destruct (embedded_struct fo tops' (fd_type f)) as [[fs' tops'']|] eqn:He'.
+  - apply IH; [eapply embedded_scope; eauto|].
+    assert (rank tops' (fd_type f) < rank tops t); [|lia].
+    apply Hr; [exact Hs|]. exists fs, f. repeat split; auto. congruence.
   - destruct k; cbn [expand]; rewrite He'; exact I.
 Qed.
 
-Lemma expand_wf site tops t :
-  embedding_wf tops -> inv no_crash (expand site (S (List.length tops)) tops t).
+Lemma expand_wf site fo tops t :
+  embedding_wf fo tops -> inv no_crash (expand site (expand_fuel fo tops) fo tops t).
 Proof.
-  intros (rank & Hr & Hb). apply (expand_rank site tops rank Hr). specialize (Hb t). lia.
+  intros (rank & Hr & Hb). apply (expand_rank site fo tops rank Hr); [now left|apply Hb].
 Qed.
 
 (* ------------------------- a decidable sufficient condition for embedding_wf *)
@@ -287,15 +448,6 @@ Proof.
   destruct (ts_name x =? n).
   - injection H as <-. exists 0. auto.
   - destruct (IH s H) as (p & Hp & Hn). exists (S p). rewrite Hp. auto.
-Qed.
-
-Lemma pos_find n : forall l p, pos n l = Some p -> exists s, find_tspec n l = Some s /\ nth_error l p = Some s.
-Proof.
-  induction l as [|x r IH]; cbn; intros p H; [discriminate|].
-  destruct (ts_name x =? n).
-  - injection H as <-. exists x. auto.
-  - destruct (pos n r) as [q|]; [|discriminate]. injection H as <-.
-    destruct (IH q eq_refl) as (s & Hs & Hn). exists s. auto.
 Qed.
 
 Lemma pos_lt n : forall l p, pos n l = Some p -> p < List.length l.
@@ -335,110 +487,190 @@ Proof.
       destruct (find_pos _ _ _ Hf0) as (x & Hx & _). congruence.
 Qed.
 
-Lemma embedded_struct_name tops t fs : embedded_struct tops t = Some fs ->
-  exists n p, tname t = Some n /\ pos n tops = Some p /\ under_struct (S (List.length tops)) tops n = Some fs.
+Lemma assoc_size q : forall (fo : foreign) ft, assoc q fo = Some ft -> List.length ft <= foreign_size fo.
 Proof.
-  destruct t; try discriminate; cbn [embedded_struct].
-  - destruct (find_tspec n tops) as [s|] eqn:Hf; [|discriminate].
-    destruct (ts_alias s); [discriminate|]. intros Hu.
-    destruct (find_pos _ _ _ Hf) as (p & Hp & _). exists n, p. auto.
-  - destruct t; try discriminate. intros Hu. cbn [under_struct] in Hu.
-    destruct (find_tspec n tops) as [s|] eqn:Hf; [|discriminate].
-    destruct (find_pos _ _ _ Hf) as (p & Hp & _). exists n, p. repeat split; auto.
-    cbn [under_struct]. now rewrite Hf.
+  unfold foreign_size. induction fo as [|[k v] r IH]; cbn; intros ft H; [discriminate|].
+  destruct (k =? q); [injection H as <-; lia|]. specialize (IH ft H). lia.
 Qed.
 
-Definition pos_rank (tops : list tspec) (t : texpr) : nat :=
+Lemma sel_free_field sc k s fs f :
+  sel_free sc = true -> nth_error sc k = Some s -> ts_body s = BStruct fs -> In f fs -> is_embedded f = true ->
+  tsel (fd_type f) = None.
+Proof.
+  intros Hsf Hn Hb Hin Hemb. unfold sel_free in Hsf. rewrite forallb_forall in Hsf.
+  specialize (Hsf s (nth_error_In _ _ Hn)). rewrite Hb in Hsf. rewrite forallb_forall in Hsf.
+  specialize (Hsf f Hin). rewrite Hemb in Hsf. cbn in Hsf. destruct (tsel (fd_type f)); [discriminate|reflexivity].
+Qed.
+
+Definition pos0 (n : string) (tops : list tspec) : nat := match pos n tops with Some p => p | None => 0 end.
+
+Lemma pos0_le n tops : pos0 n tops <= List.length tops.
+Proof. unfold pos0. destruct (pos n tops) eqn:H; [apply pos_lt in H|]; lia. Qed.
+
+(* the rank of "declared before use": position inside the scope; a scope that embeds imported
+   types lies above all imported scopes *)
+Definition ord_rank (fo : foreign) (tops : list tspec) (t : texpr) : nat :=
   match tname t with
-  | Some n => match pos n tops with Some p => p | None => 0 end
-  | None => 0
+  | Some n => (if sel_free tops then 0 else S (foreign_size fo)) + 1 + pos0 n tops
+  | None => match tsel t with
+            | Some (q, n) => match assoc q fo with Some ft => 1 + pos0 n ft | None => 0 end
+            | None => 0
+            end
   end.
 
-Lemma ordered_wf tops : ordered tops = true -> embedding_wf tops.
+Lemma ordered_wf fo tops0 : ordered tops0 = true -> foreign_ok fo = true -> embedding_wf fo tops0.
 Proof.
-  intros Ho. exists (pos_rank tops). split.
-  - intros t t' (fs & f & He & Hin & Hemb & -> & Hne).
-    destruct (embedded_struct_name _ _ _ He) as (n & p & Htn & Hp & Hu).
-    destruct (under_struct_pos tops Ho _ _ _ _ Hu Hp) as (q & s & Hle & Hn & Hb).
-    pose proof (specs_ok_nth tops tops 0 q s Ho Hn) as Hs. cbn in Hs.
-    unfold spec_ok in Hs. rewrite Hb in Hs. rewrite forallb_forall in Hs. specialize (Hs f Hin). rewrite Hemb in Hs.
-    destruct (embedded_struct tops (fd_type f)) as [fs'|] eqn:He'; [|congruence].
-    destruct (embedded_struct_name _ _ _ He') as (m & q' & Htm & Hq' & _).
-    rewrite Htm in Hs. unfold ref_ok in Hs. rewrite Hq' in Hs. apply Nat.ltb_lt in Hs.
-    unfold pos_rank. rewrite Htn, Hp, Htm, Hq'. lia.
-  - intros t. unfold pos_rank. destruct (tname t) as [n|]; [|lia].
-    destruct (pos n tops) as [p|] eqn:Hp; [|lia]. apply pos_lt in Hp. lia.
+  intros Ho Hfo.
+  assert (Hfo' : forall q ft, In (q, ft) fo -> ordered ft = true /\ sel_free ft = true).
+  { intros q ft Hin. unfold foreign_ok in Hfo. rewrite forallb_forall in Hfo.
+    specialize (Hfo (q, ft) Hin). cbn in Hfo. now apply andb_prop in Hfo. }
+  exists (ord_rank fo). split.
+  - intros tops t tops' t' Hs (fs & f & He & Hin & Hemb & -> & Hne).
+    destruct (embedded_struct fo tops' (fd_type f)) as [[fs2 sc2]|] eqn:He2; [|congruence]. clear Hne.
+    destruct (embedded_struct_inv _ _ _ _ _ He) as [(n & p & Htn & -> & Hp & Hu)|(q & n & ft & p & Hts & Ha & -> & Hp & Hu)].
+    + (* t names a type of its own scope *)
+      assert (Hord : ordered tops = true).
+      { destruct Hs as [->|[q Hq]]; [exact Ho|apply (Hfo' q tops Hq)]. }
+      destruct (under_struct_pos tops Hord _ _ _ _ Hu Hp) as (q' & s & Hle & Hn & Hb).
+      pose proof (specs_ok_nth tops tops 0 q' s Hord Hn) as Hsp. cbn in Hsp.
+      unfold spec_ok in Hsp. rewrite Hb in Hsp. rewrite forallb_forall in Hsp. specialize (Hsp f Hin). rewrite Hemb in Hsp.
+      destruct (embedded_struct_inv _ _ _ _ _ He2) as [(n' & p' & Htn' & _ & Hp' & _)|(q2 & n2 & ft2 & p2 & Hts2 & Ha2 & _ & Hp2 & _)].
+      * rewrite Htn' in Hsp. unfold ref_ok in Hsp. rewrite Hp' in Hsp. apply Nat.ltb_lt in Hsp.
+        unfold ord_rank, pos0. rewrite Htn, Htn', Hp, Hp'. lia.
+      * assert (Hsf : sel_free tops = false).
+        { destruct (sel_free tops) eqn:E; [|reflexivity].
+          rewrite (sel_free_field tops q' s fs f E Hn Hb Hin Hemb) in Hts2. discriminate. }
+        pose proof (pos_lt _ _ _ Hp2) as Hlt. pose proof (assoc_size _ _ _ Ha2) as Hsz.
+        unfold ord_rank, pos0. rewrite Htn, (tsel_tname _ _ Hts2), Hts2, Ha2, Hp, Hp2, Hsf. lia.
+    + (* t names an imported type: the fields are written in the imported scope ft *)
+      pose proof (assoc_in _ _ _ Ha) as Hin_fo. destruct (Hfo' q ft Hin_fo) as [Hord Hsf].
+      destruct (under_struct_pos ft Hord _ _ _ _ Hu Hp) as (q' & s & Hle & Hn & Hb).
+      pose proof (specs_ok_nth ft ft 0 q' s Hord Hn) as Hsp. cbn in Hsp.
+      unfold spec_ok in Hsp. rewrite Hb in Hsp. rewrite forallb_forall in Hsp. specialize (Hsp f Hin). rewrite Hemb in Hsp.
+      destruct (embedded_struct_inv _ _ _ _ _ He2) as [(n' & p' & Htn' & _ & Hp' & _)|(q2 & n2 & ft2 & p2 & Hts2 & _)].
+      * rewrite Htn' in Hsp. unfold ref_ok in Hsp. rewrite Hp' in Hsp. apply Nat.ltb_lt in Hsp.
+        unfold ord_rank, pos0. rewrite (tsel_tname _ _ Hts), Hts, Ha, Htn', Hp, Hp', Hsf. lia.
+      * rewrite (sel_free_field ft q' s fs f Hsf Hn Hb Hin Hemb) in Hts2. discriminate.
+  - intros t. unfold ord_rank, expand_fuel.
+    destruct (tname t) as [n|].
+    + pose proof (pos0_le n tops0). destruct (sel_free tops0); lia.
+    + destruct (tsel t) as [[q n]|]; [|lia]. destruct (assoc q fo) as [ft|] eqn:Ha; [|lia].
+      pose proof (pos0_le n ft). pose proof (assoc_size _ _ _ Ha). lia.
 Qed.
 
 (* the guard of the classification theorem, on what LoadPackage returned *)
-Definition loaded_wf (ld : loaded) : Prop :=
-  embedding_wf (top_tspecs (ld_files ld)) /\ embedding_wf (top_tspecs (ld_dest ld)).
+Definition loaded_wf (fo : foreign) (ld : loaded) : Prop :=
+  embedding_wf fo (top_tspecs (ld_files ld)) /\ embedding_wf fo (top_tspecs (ld_dest ld)).
 
-Lemma parts_ok_nc ld : loaded_wf ld -> parts_ok no_crash ld.
+Lemma parts_ok_nc fo ld : loaded_wf fo ld -> parts_ok no_crash fo ld.
 Proof. intros (W1 & W2). repeat split; intros; now apply expand_wf. Qed.
 
 (* ------------------------------------------------ the writing phases *)
 
 Definition all_ok (io : nat -> bool) : Prop := forall k, io k = true.
 
-Lemma files_only_set n l d : files_only d = true -> files_only (dir_set n (EFile l) d) = true.
+(* an invariant of the directory: every entry satisfies P, and every regular file does *)
+Section Entries.
+Variable P : string * entry -> bool.
+Hypothesis P_file : forall n l, P (n, EFile l) = true.
+
+Lemma all_set n l d : forallb P d = true -> forallb P (dir_set n (EFile l) d) = true.
+Proof.
+  induction d as [|[k v] r IH]; cbn; intros H; [now rewrite P_file|].
+  apply andb_prop in H as [Hv Hr]. destruct (k =? n); cbn; [now rewrite P_file|]. rewrite Hv. cbn. now apply IH.
+Qed.
+
+Lemma all_del n d : forallb P d = true -> forallb P (dir_del n d) = true.
 Proof.
   induction d as [|[k v] r IH]; cbn; intros H; [reflexivity|].
   apply andb_prop in H as [Hv Hr]. destruct (k =? n); cbn; [exact Hr|]. rewrite Hv. cbn. now apply IH.
 Qed.
 
-Lemma files_only_del n d : files_only d = true -> files_only (dir_del n d) = true.
-Proof.
-  induction d as [|[k v] r IH]; cbn; intros H; [reflexivity|].
-  apply andb_prop in H as [Hv Hr]. destruct (k =? n); cbn; [exact Hr|]. rewrite Hv. cbn. now apply IH.
-Qed.
-
-Lemma files_only_assoc n d e : files_only d = true -> assoc n d = Some e -> is_file e = true.
+Lemma all_assoc n d e : forallb P d = true -> assoc n d = Some e -> P (n, e) = true.
 Proof.
   induction d as [|[k v] r IH]; cbn; intros H Ha; [discriminate|].
-  apply andb_prop in H as [Hv Hr]. destruct (k =? n); [injection Ha as <-; exact Hv|now apply IH].
+  apply andb_prop in H as [Hv Hr]. destruct (k =? n) eqn:E; [|now apply IH].
+  injection Ha as <-. apply String.eqb_eq in E. now subst.
+Qed.
+End Entries.
+
+Lemma entry_ok_file outs fl ld n l : entry_ok outs fl ld (n, EFile l) = true.
+Proof. unfold entry_ok. cbn. now rewrite andb_false_r, !orb_true_r. Qed.
+
+Lemma mem_in x l : mem x l = true <-> In x l.
+Proof.
+  unfold mem. rewrite existsb_exists. split.
+  - intros (y & Hy & E). apply String.eqb_eq in E. now subst.
+  - intros H. exists x. split; [exact H|apply String.eqb_refl].
 Qed.
 
-Lemma notedown_ok io fl out w :
-  all_ok io -> files_only (w_dir w) = true ->
-  exists w', notedown io fl out w = (Ok tt, w') /\ files_only (w_dir w') = true.
+Lemma notedown_ok outs io fl ld out w :
+  all_ok io -> mem out outs = true -> forallb (entry_ok outs fl ld) (w_dir w) = true ->
+  exists w', notedown io fl out w = (Ok tt, w') /\ forallb (entry_ok outs fl ld) (w_dir w') = true.
 Proof.
-  intros Hio Hf. unfold notedown. rewrite !Hio. cbn [negb w_dir emit orb].
+  intros Hio Hout Hf. unfold notedown. rewrite !Hio. cbn [negb w_dir emit orb].
+  pose proof (entry_ok_file outs fl ld) as PF.
   match goal with |- context [assoc out ?d] =>
-    assert (Hd2 : files_only d = true) by (now repeat apply files_only_set);
+    assert (Hd2 : forallb (entry_ok outs fl ld) d = true) by (now repeat apply all_set);
     destruct (assoc out d) as [e|] eqn:Ha
   end.
-  - pose proof (files_only_assoc _ _ _ Hd2 Ha) as He. destruct e; try discriminate.
-    eexists; split; [reflexivity|]. cbn. apply files_only_set. now apply files_only_del.
-  - eexists; split; [reflexivity|]. cbn. apply files_only_set. now apply files_only_del.
+  - pose proof (all_assoc _ _ _ _ Hd2 Ha) as He. unfold entry_ok in He. cbn [fst snd] in He.
+    rewrite Hout in He. destruct e; try (cbn in He; discriminate);
+      (eexists; split; [reflexivity|]; cbn; apply all_set; [exact PF|]; now apply all_del).
+  - eexists; split; [reflexivity|]. cbn. apply all_set; [exact PF|]. now apply all_del.
 Qed.
 
-Lemma write_all_ok io fl : forall outs w,
-  all_ok io -> files_only (w_dir w) = true ->
-  exists w', write_all io fl outs w = (Ok tt, w') /\ files_only (w_dir w') = true.
+Lemma write_all_ok outs io fl ld : forall outs' w,
+  all_ok io -> (forall o, In o outs' -> mem o outs = true) -> forallb (entry_ok outs fl ld) (w_dir w) = true ->
+  exists w', write_all io fl outs' w = (Ok tt, w') /\ forallb (entry_ok outs fl ld) (w_dir w') = true.
 Proof.
-  induction outs as [|o r IH]; intros w Hio Hf; cbn [write_all]; [eauto|].
-  destruct (notedown_ok io fl o w Hio Hf) as (w1 & E & Hf1). rewrite E. now apply IH.
+  induction outs' as [|o r IH]; intros w Hio Hin Hf; cbn [write_all]; [eauto|].
+  destruct (notedown_ok outs io fl ld o w Hio (Hin o (or_introl eq_refl)) Hf) as (w1 & E & Hf1). rewrite E.
+  apply IH; auto. intros o' Ho'. apply Hin. now right.
 Qed.
 
-Lemma clean_loop_ok io fl genfile : forall names w,
-  all_ok io -> files_only (w_dir w) = true ->
+Lemma clean_loop_ok outs io fl ld genfile : forall names w,
+  all_ok io -> fl_sep fl = false -> (ld_allinone ld =? "") = false ->
+  (forall n, In n names -> glob_match (fl_sub fl) n = true) ->
+  forallb (entry_ok outs fl ld) (w_dir w) = true ->
   exists w', clean_loop io fl genfile names w = (Ok tt, w').
 Proof.
-  induction names as [|n r IH]; intros w Hio Hf; cbn [clean_loop]; [eauto|].
+  induction names as [|n r IH]; intros w Hio Hsep Haio Hg Hf; cbn [clean_loop]; [eauto|].
+  assert (Hg' : forall n0, In n0 r -> glob_match (fl_sub fl) n0 = true) by (intros; apply Hg; now right).
   destruct (n =? genfile); [now apply IH|].
   destruct (assoc n (w_dir w)) as [e|] eqn:Ha; [|now apply IH].
-  pose proof (files_only_assoc _ _ _ Hf Ha) as He. destruct e; try discriminate.
+  pose proof (all_assoc _ _ _ _ Hf Ha) as He. unfold entry_ok in He. cbn [fst snd] in He.
+  rewrite Hsep, Haio, (Hg n (or_introl eq_refl)) in He. cbn in He.
+  apply andb_prop in He as [_ He]. destruct e; try discriminate.
   destruct (is_aio_line line1); [now apply IH|].
   destruct (negb (is_gen_line (fl_sub fl) line1)); [now apply IH|].
-  rewrite Hio. cbn [negb]. apply IH; [exact Hio|]. cbn. now apply files_only_del.
+  rewrite Hio. cbn [negb]. apply IH; auto. cbn. now apply all_del.
 Qed.
 
-Lemma clean_ok io fl ld srcs w :
-  all_ok io -> files_only (w_dir w) = true -> exists w', clean io fl ld srcs w = (Ok tt, w').
+Lemma insert_sorted_in x y l : In y (insert_sorted x l) -> y = x \/ In y l.
 Proof.
-  intros Hio Hf. unfold clean. destruct (fl_sep fl); [eauto|]. destruct (ld_allinone ld =? ""); [eauto|].
-  now apply clean_loop_ok.
+  induction l as [|z r IH]; cbn; [intuition|].
+  destruct (String.leb x z); cbn; intuition.
+Qed.
+
+Lemma sort_names_in y l : In y (sort_names l) -> In y l.
+Proof.
+  unfold sort_names. induction l as [|x r IH]; cbn; [auto|].
+  intros H. apply insert_sorted_in in H as [->|H]; auto.
+Qed.
+
+Lemma dedup_in y l : In y (dedup l) -> In y l.
+Proof.
+  induction l as [|x r IH]; cbn; [auto|]. destruct (mem x r); cbn; intuition.
+Qed.
+
+Lemma clean_ok outs io fl ld srcs w :
+  all_ok io -> forallb (entry_ok outs fl ld) (w_dir w) = true -> exists w', clean io fl ld srcs w = (Ok tt, w').
+Proof.
+  intros Hio Hf. unfold clean. destruct (fl_sep fl) eqn:Hsep; [eauto|].
+  destruct (ld_allinone ld =? "") eqn:Haio; [eauto|].
+  apply (clean_loop_ok outs io fl ld); auto.
+  intros n Hn. apply sort_names_in, dedup_in, filter_In in Hn. apply Hn.
 Qed.
 
 (* every stop of the writing phases is a logx.Fatal *)
@@ -477,7 +709,7 @@ Qed.
 Lemma analyse_inv (Q : stop -> Prop) i :
   (forall d, exit_code d = 1 -> Q (Exit d)) ->
   inv Q (parse_flags i) ->
-  (forall fl ld, parse_flags i = Ok fl -> load_package i fl = Ok ld -> parts_ok Q ld) ->
+  (forall fl ld, parse_flags i = Ok fl -> load_package i fl = Ok ld -> parts_ok Q (i_foreign i) ld) ->
   inv Q (analyse i).
 Proof.
   intros HQ Hp Hparts. unfold analyse.
@@ -499,7 +731,11 @@ Proof.
          | |- inv _ (Stop (Exit _)) => exact I
          | |- inv _ (fatal _) => exact I
          | |- inv _ (guard ?b _) => destruct b; exact I
-         | |- inv _ (bind _ _) => apply inv_bind; [|intros ? ?]
+         | |- inv _ (bind (nth_or_panic _ 0 (_ :: _)) _) => cbn [bind nth_or_panic nth_error]
+  | |- inv _ (bind (deref _ (Some _)) _) => cbn [bind deref]
+  | |- inv _ (nth_or_panic _ 0 (_ :: _)) => exact I
+  | |- inv _ (deref _ (Some _)) => exact I
+  | |- inv _ (bind _ _) => apply inv_bind; [|intros ? ?]
          | |- inv _ (if ?b then _ else _) => destruct b
          | |- inv _ (match ?x with _ => _ end) => destruct x
          end.
@@ -507,61 +743,66 @@ Qed.
 
 (* T2: without I/O faults and with only regular files in the package directory,
    the run either ends with exit status 0 or stopped before the first write *)
+(* sigma delivers names of the map it iterates over (every permutation does) *)
+Definition selects (sigma : list string -> list string) : Prop := forall l x, In x (sigma l) -> In x l.
+
+(* T2: without I/O faults and without an obstructing directory entry, the run either ends with
+   exit status 0 or stopped before the first write *)
 Lemma run_cases sigma io i :
-  all_ok io -> files_only (i_extra i) = true ->
+  all_ok io -> selects sigma -> state_ok i = true ->
   (exists w, run sigma io i = (Exit DSuccess, w)) \/ (exists w, run sigma io i = (Exit DNothing, w)) \/
   (exists s, analyse i = Stop s /\ run sigma io i = (s, world0 i)).
 Proof.
-  intros Hio Hf. unfold run. destruct (analyse i) as [[[fl ld] outs]|s] eqn:Ha.
-  - destruct (write_all_ok io fl (sigma outs) (world0 i) Hio Hf) as (w1 & E & Hf1). rewrite E.
-    destruct outs as [|o r]; [right; left; eauto|].
-    destruct (clean_ok io fl ld (map f_name (files_of i (fl_dir fl))) w1 Hio Hf1) as (w2 & E2).
+  intros Hio Hsel Hf. unfold run. unfold state_ok in Hf. destruct (analyse i) as [[[fl ld] outs]|s] eqn:Ha.
+  - destruct (write_all_ok outs io fl ld (sigma outs) (world0 i) Hio) as (w1 & E & Hf1); [|exact Hf|].
+    { intros o Ho. apply mem_in. now apply Hsel. }
+    rewrite E. destruct outs as [|o r]; [right; left; eauto|].
+    destruct (clean_ok (o :: r) io fl ld (map f_name (files_of i (fl_dir fl))) w1 Hio Hf1) as (w2 & E2).
     rewrite E2. left; eauto.
   - right; right. exists s. split; reflexivity.
 Qed.
 
 Lemma nonzero_exit_changes_nothing sigma io i s w :
-  all_ok io -> files_only (i_extra i) = true ->
+  all_ok io -> selects sigma -> state_ok i = true ->
   run sigma io i = (s, w) ->
   (forall d, s = Exit d -> exit_code d <> 0) ->
   w = world0 i.
 Proof.
-  intros Hio Hf Hr Hnz.
-  destruct (run_cases sigma io i Hio Hf) as [[w' E]|[[w' E]|(s' & _ & E)]]; rewrite E in Hr; inversion Hr; subst.
+  intros Hio Hsel Hf Hr Hnz.
+  destruct (run_cases sigma io i Hio Hsel Hf) as [[w' E]|[[w' E]|(s' & _ & E)]]; rewrite E in Hr; inversion Hr; subst.
   - exfalso. apply (Hnz DSuccess); reflexivity.
   - exfalso. apply (Hnz DNothing); reflexivity.
   - reflexivity.
 Qed.
 
+(* a directory holding regular files only is never an obstacle *)
+Lemma files_only_state_ok i : files_only (i_extra i) = true -> state_ok i = true.
+Proof.
+  intros H. unfold state_ok. destruct (analyse i) as [[[fl ld] outs]|]; [|reflexivity].
+  unfold files_only in H. rewrite forallb_forall in *. intros [n e] Hin. specialize (H (n, e) Hin). cbn in H.
+  destruct e; try discriminate. apply entry_ok_file.
+Qed.
+
+Lemma selects_id : selects id_order.
+Proof. intros l x H. exact H. Qed.
+
 (* the guard of the classification theorem on the input *)
 Definition input_wf (i : input) : Prop :=
-  embedding_wf (top_tspecs (i_files i)) /\
-  forall sp n fs, In (sp, DestPkg n fs) (i_dests i) -> embedding_wf (top_tspecs fs).
+  embedding_wf (i_foreign i) (top_tspecs (i_files i)) /\
+  embedding_wf (i_foreign i) [] /\           (* the imported packages on their own *)
+  forall sp n fs, In (sp, DestPkg n fs) (i_dests i) -> embedding_wf (i_foreign i) (top_tspecs fs).
 
-Lemma embedding_wf_nil : embedding_wf [].
+Lemma load_package_wf i fl ld : input_wf i -> load_package i fl = Ok ld -> loaded_wf (i_foreign i) ld.
 Proof.
-  exists (fun _ => 0). split; [|intros; cbn; lia].
-  intros t t' (fs & f & He & _). destruct t; cbn in He; try discriminate. destruct t; cbn in He; discriminate.
-Qed.
-
-Lemma assoc_in {A} k (l : list (string * A)) v : assoc k l = Some v -> In (k, v) l.
-Proof.
-  induction l as [|[k' v'] r IH]; cbn; [discriminate|].
-  destruct (k' =? k) eqn:E; [|intros; right; auto].
-  intros H. injection H as <-. apply String.eqb_eq in E. subst. now left.
-Qed.
-
-Lemma load_package_wf i fl ld : input_wf i -> load_package i fl = Ok ld -> loaded_wf ld.
-Proof.
-  intros (W & D). unfold load_package. cbv zeta.
-  assert (Wf : embedding_wf (top_tspecs (files_of i (fl_dir fl)))).
-  { unfold files_of. destruct (is_pkgdir i (fl_dir fl)); [auto|apply embedding_wf_nil]. }
+  intros (W & W0 & D). unfold load_package. cbv zeta.
+  assert (Wf : embedding_wf (i_foreign i) (top_tspecs (files_of i (fl_dir fl)))).
+  { unfold files_of. destruct (is_pkgdir i (fl_dir fl)); [auto|exact W0]. }
   destruct (match fl_sub fl with
             | CMap => _
             | _ => _
             end) as [d|s] eqn:Hd; cbn [bind]; [|discriminate].
-  assert (Wd : embedding_wf (top_tspecs match d with Some (DestPkg _ fs) => fs | _ => [] end)).
-  { destruct d as [[n fs|]|]; try apply embedding_wf_nil.
+  assert (Wd : embedding_wf (i_foreign i) (top_tspecs match d with Some (DestPkg _ fs) => fs | _ => [] end)).
+  { destruct d as [[n fs|]|]; try exact W0.
     destruct (fl_sub fl); try discriminate.
     destruct (fl_dest fl =? ".").
     - injection Hd as <- <-. auto.
@@ -659,32 +900,54 @@ Definition gofile (n : string) (ds : list decl) : file :=
 Definition mkinput (args : list string) (files : list file) (extra : list (string * entry))
            (dests : list (string * dest)) : input :=
   {| i_args := args; i_pkgdirs := ["."]; i_inmodule := true; i_files := files; i_extra := extra;
-     i_dests := dests; i_render := []; i_merge_ok := true |}.
+     i_dests := dests; i_render := []; i_merge_ok := true; i_foreign := [] |}.
+
+Definition with_foreign (i : input) (fo : foreign) : input :=
+  {| i_args := i_args i; i_pkgdirs := i_pkgdirs i; i_inmodule := i_inmodule i; i_files := i_files i;
+     i_extra := i_extra i; i_dests := i_dests i; i_render := i_render i; i_merge_ok := i_merge_ok i; i_foreign := fo |}.
 
 (* K_ctor_self_embed: type Node struct { *Node; v int } *)
 Definition node_tops : list tspec := [strct "Node" [emb (TStar (TId "Node")); fld "v" (TId "int")]].
 Definition w_self_embed : input :=
   mkinput ["new"; "-type=Node"] [gofile "a.go" [DType node_tops]] [] [].
 
-Lemma self_embed_diverges : forall fuel, expand LNewEmbed fuel node_tops (TStar (TId "Node")) = Stop (Diverge LNewEmbed).
+Lemma self_embed_diverges :
+  forall fuel, expand LNewEmbed fuel [] node_tops (TStar (TId "Node")) = Stop (Diverge LNewEmbed).
 Proof.
   induction fuel as [|k IH]; [reflexivity|].
-  cbn [expand]. change (embedded_struct node_tops (TStar (TId "Node")))
-    with (Some [emb (TStar (TId "Node")); fld "v" (TId "int")]).
+  cbn [expand]. change (embedded_struct [] node_tops (TStar (TId "Node")))
+    with (Some ([emb (TStar (TId "Node")); fld "v" (TId "int")], node_tops)).
   cbn [each is_embedded emb fd_names fd_type]. rewrite IH. reflexivity.
 Qed.
 
 Lemma self_embed_run : fst (run id_order no_fault w_self_embed) = Diverge LNewEmbed.
 Proof. vm_compute. reflexivity. Qed.
 
-Lemma self_embed_not_wf : ~ embedding_wf node_tops.
+Lemma self_embed_not_wf : ~ embedding_wf [] node_tops.
 Proof.
   intros (rank & Hr & _).
-  assert (H : child node_tops (TStar (TId "Node")) (TStar (TId "Node"))).
+  assert (H : child [] node_tops (TStar (TId "Node")) node_tops (TStar (TId "Node"))).
   { exists [emb (TStar (TId "Node")); fld "v" (TId "int")], (emb (TStar (TId "Node"))).
     repeat split; [now left|discriminate]. }
-  specialize (Hr _ _ H). lia.
+  specialize (Hr _ _ _ _ (or_introl eq_refl) H). lia.
 Qed.
+
+(* the same class through a generic type and through an imported package:
+   type Node[T any] struct { *Node[T]; v T }   and   type Holder struct { ext.Loop; id int }
+   with, in package ext, type Loop struct { *Loop; V int } *)
+Definition w_generic_self : input :=
+  mkinput ["new"; "-type=Node"]
+    [gofile "a.go" [DType [strct "Node" [emb (TStar (TGen "Node" (TId "T"))); fld "v" (TId "T")]]]] [] [].
+Definition loop_scope : list tspec := [strct "Loop" [emb (TStar (TId "Loop")); fld "V" (TId "int")]].
+Definition w_foreign_loop : input :=
+  with_foreign (mkinput ["new"; "-type=Holder"]
+                  [gofile "a.go" [DType [strct "Holder" [emb (TSel "ext" "Loop"); fld "id" (TId "int")]]]] [] [])
+               [("ext", loop_scope)].
+Lemma generic_and_foreign_self_embed_diverge :
+  fst (run id_order no_fault w_generic_self) = Diverge LNewEmbed /\
+  fst (run id_order no_fault w_foreign_loop) = Diverge LNewEmbed /\
+  input_ok w_generic_self = false /\ input_ok w_foreign_loop = false.
+Proof. vm_compute. auto. Qed.
 
 (* K_map_unnamed_names: a write method toDest whose parameter of type pointer to dest.T has no name *)
 Definition t_struct : tspec := strct "T" [fld "ID" (TId "int")].
@@ -756,54 +1019,15 @@ Definition ex_tops : list tspec :=
   [strct "Base" [fld "id" (TId "int")];
    strct "Mid" [emb (TId "Base"); fld "x" (TId "int")];
    strct "Top" [emb (TStar (TId "Mid")); fld "y" (TId "string")]].
-Definition ex_input (args : list string) : input := mkinput args [gofile "a.go" [DType ex_tops]] [] [].
-
-Definition ex_rank (t : texpr) : nat :=
-  let r n := if n =? "Top" then 2 else if n =? "Mid" then 1 else 0 in
-  match t with TId n => r n | TStar (TId n) => r n | _ => 0 end.
-
-Lemma ex_embedded n :
-  embedded_struct ex_tops (TId n) = under_struct 4 ex_tops n /\
-  embedded_struct ex_tops (TStar (TId n)) = under_struct 4 ex_tops n.
-Proof.
-  split; [|reflexivity]. cbn -[String.eqb].
-  destruct ("Base" =? n) eqn:E1; [reflexivity|].
-  destruct ("Mid" =? n) eqn:E2; [reflexivity|].
-  destruct ("Top" =? n) eqn:E3; reflexivity.
-Qed.
-
-Lemma ex_under n fs : under_struct 4 ex_tops n = Some fs ->
-  (n = "Base" /\ fs = [fld "id" (TId "int")]) \/
-  (n = "Mid" /\ fs = [emb (TId "Base"); fld "x" (TId "int")]) \/
-  (n = "Top" /\ fs = [emb (TStar (TId "Mid")); fld "y" (TId "string")]).
-Proof.
-  cbn -[String.eqb].
-  destruct ("Base" =? n) eqn:E1; [apply String.eqb_eq in E1; intros H; injection H as <-; auto|].
-  destruct ("Mid" =? n) eqn:E2; [apply String.eqb_eq in E2; intros H; injection H as <-; auto|].
-  destruct ("Top" =? n) eqn:E3; [apply String.eqb_eq in E3; intros H; injection H as <-; auto 6|].
-  discriminate.
-Qed.
-
-Lemma ex_wf : embedding_wf ex_tops.
-Proof.
-  exists ex_rank. split.
-  - intros t t' (fs & f & He & Hin & Hemb & -> & Hne).
-    assert (Hn : exists n, (t = TId n \/ t = TStar (TId n)) /\ under_struct 4 ex_tops n = Some fs).
-    { destruct t; try discriminate.
-      - exists n. split; [auto|]. now rewrite <- (proj1 (ex_embedded n)).
-      - destruct t; try discriminate. exists n. split; [auto|]. now rewrite <- (proj2 (ex_embedded n)). }
-    destruct Hn as (n & Ht & Hu).
-    destruct (ex_under n fs Hu) as [[-> ->]|[[-> ->]|[-> ->]]];
-      cbn [In] in Hin; intuition subst; try discriminate; cbn; lia.
-  - intros t. unfold ex_rank. destruct t; cbn; try lia;
-      try (destruct (n =? "Top"); [lia|destruct (n =? "Mid"); lia]).
-    destruct t; cbn; try lia. destruct (n =? "Top"); [lia|destruct (n =? "Mid"); lia].
-Qed.
-
-Lemma ex_input_wf args : input_wf (ex_input args).
-Proof.
-  split; [exact ex_wf|]. intros sp n fs [].
-Qed.
+(* plus an instantiated generic type and two types of an imported package (one of them embedding
+   another type of that package) *)
+Definition ex_tops2 : list tspec :=
+  (ex_tops ++ [strct "Box" [fld "v" (TId "T")];
+               strct "Wide" [emb (TGen "Box" (TId "int")); emb (TStar (TSel "ext" "Deep")); emb (TSel "ext" "Fine"); emb (TId "Top")]])%list.
+Definition ex_foreign : foreign :=
+  [("ext", [strct "Fine" [fld "W" (TId "int")]; strct "Deep" [emb (TId "Fine"); fld "z" (TId "int")]])].
+Definition ex_input (args : list string) : input :=
+  with_foreign (mkinput args [gofile "a.go" [DType ex_tops2]] [] []) ex_foreign.
 
 Lemma ex_runs :
   fst (run id_order no_fault (ex_input ["new"; "-type=Top,Mid"; "-getset"])) = Exit DSuccess /\
@@ -814,8 +1038,8 @@ Proof. vm_compute. auto. Qed.
 (* the decidable guard implies the guard of the classification theorem *)
 Lemma input_ok_wf i : input_ok i = true -> input_wf i.
 Proof.
-  unfold input_ok. intros H. apply andb_prop in H as [H H0].
-  split; [now apply ordered_wf|].
+  unfold input_ok. intros H. apply andb_prop in H as [H H0]. apply andb_prop in H as [H H1].
+  split; [now apply ordered_wf|]. split; [now apply ordered_wf|].
   intros sp n fs Hin. rewrite forallb_forall in H0. specialize (H0 (sp, DestPkg n fs) Hin). cbn in H0.
   now apply ordered_wf.
 Qed.
@@ -825,3 +1049,6 @@ Proof. intros H. apply run_is_exit. now apply input_ok_wf. Qed.
 
 Lemma ex_input_ok args : input_ok (ex_input args) = true.
 Proof. reflexivity. Qed.
+
+Lemma ex_input_wf args : input_wf (ex_input args).
+Proof. apply input_ok_wf. apply ex_input_ok. Qed.
